@@ -1,6 +1,7 @@
 import Dia.Dump
 import Dia.Exec
 import Dia.Server
+import Dia.StreamSeq
 import Dia.Fixed
 import Dia.ClientPolite
 import Dia.Tls
@@ -103,14 +104,12 @@ def parseWEvs (s : String) : Option (List WEv) :=
     if t = "p" then some .pending else if t = "f" then some .fail
     else if t.startsWith "a" then (t.drop 1).toString.toNat?.map .accept else none
 
-def sdecLoop (cfg : Cfg) (dict : Lookup) : Nat → List REv → List String → List String
-  | 0, _, acc => acc.reverse
-  | n+1, evs, acc =>
-    let r := Codec.decode cfg dict evs
-    match r.out with
-    | .ok m => sdecLoop cfg dict n r.rest (("ok:" ++ m.dump ++ "@" ++ toString r.consumed) :: acc)
-    | .err _ => (("err@" ++ toString r.consumed) :: acc).reverse
-    | .panic => (("panic@" ++ toString r.consumed) :: acc).reverse
+def sdecLine (cfg : Cfg) (dict : Lookup) (n : Nat) (evs : List REv) : String :=
+  String.intercalate ";" ((decodeSeq cfg dict n evs).map fun (o, used) =>
+    match o with
+    | .ok m => "ok:" ++ m.dump ++ "@" ++ toString used
+    | .err _ => "err@" ++ toString used
+    | .panic => "panic@" ++ toString used)
 
 def bit (b : Bool) : String := if b then "1" else "0"
 
@@ -428,17 +427,13 @@ def step (s : DState) (line : String) : DState × String :=
   | ["mclear"] => plain { s with saved := #[] } "ok"
   | ["sdec", n, evs] =>
     match n.toNat?, parseREvs evs with
-    | some n, some evs => plain s (String.intercalate ";" (sdecLoop s.cfg s.ms.dict.lookup n evs []))
+    | some n, some evs => plain s (sdecLine s.cfg s.ms.dict.lookup n evs)
     | _, _ => plain s "bad-op"
   | ["senc", w] =>
     match parseWEvs w with
     | some w =>
-      let e := s.ms.msg.enc
-      (match e.err with
-       | some _ => plain s "err -"
-       | none =>
-         let (ok, wr, _) := writeAll e.bytes w
-         (s, (if ok then "ok " else "err ") ++ hexOrDash wr ++ " | " ++ hexOrDash (Spec.encode s.ms.msg.abs) ++ " | -"))
+      let (ok, wr) := Codec.encodeTo s.ms.msg w
+      (s, (if ok then "ok " else "err ") ++ hexOrDash wr ++ " | " ++ hexOrDash (Spec.encode s.ms.msg.abs) ++ " | -")
     | none => plain s "bad-op"
   | ["serve", hs, rd, wr] =>
     let hres : Option (List HRes) :=
